@@ -1,6 +1,7 @@
 package main
 
 import (
+	"context"
 	"flag"
 	"fmt"
 	"os"
@@ -27,6 +28,9 @@ func main() {
 	prop := fs.String("prop", "", "property id")
 	tier := fs.String("tier", "quick", "quick|thorough")
 	fs.Parse(os.Args[2:])
+	if cmd == "selfcheck" {
+		os.Exit(selfcheck())
+	}
 	t0 := time.Now()
 	p, err := loadProg(*repo, *specDir)
 	if err != nil {
@@ -190,4 +194,28 @@ func dumpFunc(p *Prog, fn *ssa.Function) {
 		}
 	}
 	fn.WriteTo(os.Stdout)
+}
+
+// selfcheck: the solvers answer a trivially unsat and a trivially sat query.
+func selfcheck() int {
+	dir, _ := os.MkdirTemp("", "govc-self")
+	defer os.RemoveAll(dir)
+	okCount := 0
+	for _, s := range solvers {
+		f := dir + "/u.smt2"
+		os.WriteFile(f, []byte("(set-logic ALL)\n(declare-const x Int)\n(assert (and (> x 0) (< x 0)))\n(check-sat)\n"), 0o644)
+		r1 := runOne(context.Background(), s, f, 10)
+		g := dir + "/s.smt2"
+		os.WriteFile(g, []byte("(set-logic ALL)\n(declare-const x Int)\n(assert (> x 0))\n(check-sat)\n"), 0o644)
+		r2 := runOne(context.Background(), s, g, 10)
+		fmt.Printf("selfcheck %s: unsat-query=%s sat-query=%s\n", s.name, r1.result, r2.result)
+		if r1.result == "unsat" && r2.result == "sat" {
+			okCount++
+		}
+	}
+	if okCount == 0 {
+		fmt.Println("selfcheck: no working SMT solver")
+		return 1
+	}
+	return 0
 }
